@@ -32,7 +32,7 @@ RECURSIVE SumLens(_, _)
 SumLens(rows, i) == IF i = 0 THEN 0 ELSE Len(rows[i].items) + SumLens(rows, i - 1)
 CountClauses(e) ==
     LET rows == S.tgs[pos].transition_list.items
-    IN  IF e.msg # "Game solved" \/ Collides THEN {}
+    IN  IF Collides \/ ~(e.msg = "Game solved" \/ S.kinds[pos] \in {"ok", "okdead", "nosol"}) THEN {}
         ELSE (IF e.text.n_states = ToString(Len(rows)) THEN {} ELSE {"X.Counts states" \o At})
              \cup (IF e.text.n_transitions = ToString(SumLens(rows, Len(rows))) THEN {} ELSE {"X.Counts transitions" \o At})
 HasEntry == k <= Len(Entries)
